@@ -143,6 +143,20 @@ def bounded(ctx):
             prev_last = cols[-1]
         a = np.array(pts)
         patterns.append((a[:, 0], a[:, 1], rng.permutation(len(a)).astype(float) + 1))
+    from verif.tunits import repo_module
+    from verif import extbuild
+    extbuild.ensure_current()
+    spf = repo_module("ImageD11.sparseframe")
+    for k, (ii, jj, vv) in enumerate(patterns[:20]):
+        # the python glue on a sparse_frame object gives the labels of the kernel (nlabel stored with them)
+        fr = spf.sparse_frame(ii, jj, (int(ii.max()) + 2, int(jj.max()) + 2), itype=np.uint16)
+        fr.set_pixels("intensity", vv.astype(np.float32), {})
+        ng = spf.sparse_localmax(fr)
+        nk, sk = clib.sparse_localmaxlabel(vv, ii, jj)
+        ev += 1
+        if ng != nk or not np.array_equal(np.asarray(fr.pixels["localmax"]), sk):
+            if len(fails) < 6:
+                fails.append(dict(name="sparseframe.sparse_localmax differs from the kernel on the same pixels", pattern=k))
     for ii, jj, vv in patterns:
         ev += 1
         nl, sl = clib.sparse_localmaxlabel(vv, ii, jj)
